@@ -116,6 +116,13 @@ mod tests;
 #[cfg(opw_verif)]
 pub mod verif_hooks;
 
+/// Verification hook: the private dual RRT implementation, re-exported so that it can be
+/// driven with scripted sampling / freeness closures.
+#[cfg(all(opw_verif, feature = "stroke_planning"))]
+pub mod verif_rrt {
+    pub use crate::rrt_to::dual_rrt_connect;
+}
+
 
 
 
